@@ -101,6 +101,7 @@ class GenOpts:
     many: float = 0.04              # probability of a two-digit count (events, formals, ports)
     ref_externs: float = 0.25       # externs whose C++ type is a reference (in-parameters only)
     mc_enum_family: bool = False    # the claim enum holds X next to an earlier NotX; X grants
+    mc_no_outs: bool = False        # the multi-client interface has in-events only
 
 
 @dataclass
@@ -400,7 +401,7 @@ class ModelGen:
                 choices.append(M.Ref(list(pick.ids), pick.target))
             events.append(M.Event(fresh(rng, taken, rng.choice(['camel', 'snake', 'single'])), 'in',
                                   rng.choice(choices), formals('in')))
-        for _ in range(rng.randint(2, 4)):
+        for _ in range(0 if self.o.mc_no_outs else rng.randint(2, 4)):
             events.append(M.Event(fresh(rng, taken, rng.choice(['camel', 'snake', 'single'])), 'out',
                                   M.Ref(['void']), formals('out')))
         rng.shuffle(events)
